@@ -42,6 +42,10 @@ type hcase struct {
 	// with io.EOF.
 	Sizes       []int `json:"sizes,omitempty"`
 	EOFWithData bool  `json:"eof_with_data,omitempty"`
+	// More: further inputs handed to the same interpreter in later Execute
+	// calls (target interp only): the budget and the limits hold for the
+	// instance, however the work is spread over calls
+	More [][]byte `json:"more,omitempty"`
 }
 
 // schedule draws a delivery schedule for a hostile input: mostly all at once,
@@ -90,6 +94,11 @@ func exec(c *hcase) (res string) {
 		intp := postscript.NewInterpreter()
 		intp.MaxOps = interpMaxOps
 		err = intp.Execute(r)
+		for _, m := range c.More {
+			if e := intp.Execute(bytes.NewReader(m)); e != nil {
+				err = e
+			}
+		}
 	case "cmap":
 		_, err = postscript.ReadCMap(r)
 	case "type1":
@@ -360,7 +369,7 @@ func TestP1Tuples(t *testing.T) {
 func TestP2Programs(t *testing.T) {
 	rec := ev.New("C01", "programs")
 	defer rec.Finish(t)
-	rec.Rule("interpreter with MaxOps = 3000: recursion, self-reference and extreme-count hostile.Templates (procedure holding itself in every slot then bind, arrays containing themselves under forall/loop, self- and mutually recursive names, cycles of names whose value is an executable name, exec of itself, begin/push loops, for with zero increment or overflowing control variable, copy/putinterval/getinterval/roll/index/repeat/array/string with counts near 2^63, failing error handlers, eexec/readstring/closefile on the current file, forall over systemdict with redefinition, CMap operators outside their blocks, unterminated strings and procedures, extreme numbers, odd DSC lines, control bytes), each alone and composed with random programs of the C02/C03 generators and with random byte strings and mutated programs; texts of 300-1700 bytes made of short lexical pieces dense in comments, DSC lines, strings and line ends of all kinds, cut at any byte; programs that first replace every handler in errordict by one that lets the program go on and then run 3-40 failing and state-changing pieces (eexec sections with bad digits, file operators, unmatched delimiters, CMap and font operators). These texts and a quarter of the other generated inputs of every part are delivered in cycled short reads (sizes 1-4096 around the library's buffer sizes, or mixtures of sizes 1-13), with or without the last data arriving together with io.EOF. Same child-process oracle as the tuples part. Non-trivial: program has >= 2 tokens; distinct by text.")
+	rec.Rule("interpreter with MaxOps = 3000: recursion, self-reference and extreme-count hostile.Templates (procedure holding itself in every slot then bind, arrays containing themselves under forall/loop, self- and mutually recursive names, cycles of names whose value is an executable name, exec of itself, begin/push loops, for with zero increment or overflowing control variable, copy/putinterval/getinterval/roll/index/repeat/array/string with counts near 2^63, failing error handlers, eexec/readstring/closefile on the current file, forall over systemdict with redefinition, CMap operators outside their blocks, unterminated strings and procedures, extreme numbers, odd DSC lines, control bytes), each alone and composed with random programs of the C02/C03 generators and with random byte strings and mutated programs; texts of 300-1700 bytes made of short lexical pieces dense in comments, DSC lines, strings and line ends of all kinds, cut at any byte; programs that first replace every handler in errordict by one that lets the program go on and then run 3-40 failing and state-changing pieces (eexec sections with bad digits, file operators, unmatched delimiters, CMap and font operators). A fifth of the programs is followed by one or two more Execute calls on the same interpreter (templates again, also after a first call that used up the budget). These texts and a quarter of the other generated inputs of every part are delivered in cycled short reads (sizes 1-4096 around the library's buffer sizes, or mixtures of sizes 1-13), with or without the last data arriving together with io.EOF. Same child-process oracle as the tuples part. Non-trivial: program has >= 2 tokens; distinct by text.")
 	var cases []*hcase
 	sh, n := ev.Shard()
 	for i, tm := range hostile.Templates {
@@ -431,7 +440,18 @@ func TestP2Programs(t *testing.T) {
 		default:
 			text = string(rapid.SliceOfN(rapid.Byte(), 0, 200).Draw(t, "raw"))
 		}
-		cases = append(cases, (&hcase{Target: "interp", Data: []byte(text), Label: label}).schedule(t))
+		hc := (&hcase{Target: "interp", Data: []byte(text), Label: label}).schedule(t)
+		if rapid.IntRange(0, 4).Draw(t, "morecalls") == 0 {
+			// one or two more calls on the same interpreter, after a first
+			// call that may have ended with an error or at the budget
+			if rapid.Bool().Draw(t, "firstexhausts") {
+				hc.Data = append(hc.Data, " { } loop"...)
+			}
+			for n := rapid.IntRange(1, 2).Draw(t, "nmore"); n > 0; n-- {
+				hc.More = append(hc.More, []byte(hostile.Templates[rapid.IntRange(0, len(hostile.Templates)-1).Draw(t, "moretemplate")]))
+			}
+		}
+		cases = append(cases, hc)
 	})
 	runBatch(rec, cases, func(c *hcase, _ string) bool { return len(bytes.Fields(c.Data)) >= 2 })
 	if len(cases) > 2 {
